@@ -34,10 +34,21 @@ func allChecks() []CheckSpec {
 			Harnesses: []HarnessSpec{
 				{Fn: "verifC11Notifier", Lemma: "schedule exploration over the REAL handlerNotifier (Enqueue*, the drainer goroutines it spawns, Close): two concurrent producers (A: two events, B: one) on any of the three streams with a slow handler that yields inside: the handler never runs concurrently with itself, every event is delivered exactly once, A's events in their order, GracefulClose returns only when no handler is running, and nothing is invoked after it returned",
 					Bounds: "3 events, 2 producers + drainer goroutines + harness, all schedules with at most 2 (thorough 3) preemptive context switches at synchronisation-point granularity", MustReach: []string{"done"},
-					Cfg: func(c *HarnessCfg, tier int) { c.GoPolicy = "explore"; c.ContextBound = 2 + tier; c.MaxPaths = 4000000; c.MaxWallS = 1200 }},
+					Cfg: func(c *HarnessCfg, tier int) {
+						c.GoPolicy = "explore"
+						c.ContextBound = 2 + tier
+						c.MaxPaths = 4000000
+						c.MaxWallS = 1200
+					}},
 				{Fn: "verifC11GatherVsRestart", Lemma: "GatherCandidates racing with Restart on the real task loop, the real gatherCandidates goroutine and the real notifier: at most one nil candidate per cycle, exactly one when the cycle completed, none from a refused or cancelled cycle, final gathering state New or Complete",
 					Bounds: "one gather call and one Restart, fake net without interfaces, context bound 1 (thorough 2), the first 5 (thorough 7) non-preemptive switch points explored over all enabled threads, later ones least-recently-run", MustReach: []string{"completed", "cancelled-by-restart", "done"},
-					Cfg: func(c *HarnessCfg, tier int) { c.GoPolicy = "explore"; c.ContextBound = 1 + tier; c.FreeChoiceBound = 5 + 2*tier; c.MaxPaths = 8000000; c.MaxWallS = 1500 }},
+					Cfg: func(c *HarnessCfg, tier int) {
+						c.GoPolicy = "explore"
+						c.ContextBound = 1 + tier
+						c.FreeChoiceBound = 5 + 2*tier
+						c.MaxPaths = 8000000
+						c.MaxWallS = 1500
+					}},
 			},
 			Assumptions: append([]string{
 				"threads switch only at synchronisation operations (sound for data-race-free code); schedule-dependent counterexamples are replayed by re-executing the recorded schedule on the SSA of the real code",
@@ -49,7 +60,12 @@ func allChecks() []CheckSpec {
 			Harnesses: []HarnessSpec{
 				{Fn: "verifC10Loop", Lemma: "schedule exploration over the REAL internal/taskloop (New/runLoop/Run/Close/Err, no stub): two concurrent submitters (one with a cancellable context), an optional canceller and an optional closer, the loop goroutine: tasks never overlap, a submission returns nil exactly when its task ran once to completion before the return and an error exactly when it never ran, no task starts after Close returned, the close callback runs once and before Close returns, submissions after Close fail without running",
 					Bounds: "quick: 1 submitter (cancellable context) + optional canceller + optional closer + loop goroutine + harness; thorough: 2 submitters; every schedule with at most 2 preemptive context switches at synchronisation-point granularity (channel ops, select, mutex, Once, WaitGroup, atomics), free switches when a thread blocks", MustReach: []string{"submitted", "refused", "closed", "done"},
-					Cfg: func(c *HarnessCfg, tier int) { c.GoPolicy = "explore"; c.ContextBound = 2; c.MaxPaths = 4000000; c.MaxWallS = 1200 }},
+					Cfg: func(c *HarnessCfg, tier int) {
+						c.GoPolicy = "explore"
+						c.ContextBound = 2
+						c.MaxPaths = 4000000
+						c.MaxWallS = 1200
+					}},
 				{Fn: "verifC10CloseTwice", Lemma: "two concurrent Close calls and a submission: both Close calls return after the single callback; the submission succeeds iff its task ran",
 					Bounds: "5 threads, context bound 1 (quick) / 2 (thorough)", MustReach: []string{"done"},
 					Cfg: func(c *HarnessCfg, tier int) { c.GoPolicy = "explore"; c.ContextBound = 1 + tier; c.MaxPaths = 4000000 }},
@@ -133,7 +149,12 @@ func allChecks() []CheckSpec {
 					Cfg: func(c *HarnessCfg, tier int) { c.GoPolicy = "queue" }},
 				{Fn: "verifC13AbortInterleaved", Lemma: "schedule exploration over the real writeToContext/writeTo/startWriteContext/finishWrite/abortWrite/clearWriteDeadlineAfterAbort and the lock-free state word (every atomic operation is a scheduling point): a context-bound write blocked in the socket, a concurrent plain write by another user, and the cancellation of the first context: under every schedule within the bound everybody returns (no deadlock/livelock), the state word returns to 0, the last deadline set on the shared socket is 'none', and a later write succeeds",
 					Bounds: "threads: harness, 2 writers, canceller, the internal abort goroutine, connWorker; at most 2 preemptive context switches (thorough 3) at synchronisation-point granularity incl. every atomic load/CAS/store of the state word", MustReach: []string{"deadline-was-armed", "done"},
-					Cfg: func(c *HarnessCfg, tier int) { c.GoPolicy = "explore"; c.ContextBound = 2 + tier; c.MaxPaths = 4000000; c.MaxWallS = 1500 }},
+					Cfg: func(c *HarnessCfg, tier int) {
+						c.GoPolicy = "explore"
+						c.ContextBound = 2 + tier
+						c.MaxPaths = 4000000
+						c.MaxWallS = 1500
+					}},
 				{Fn: "verifC13AbortProtocol", Lemma: "write-abort protocol at method granularity on the real startWriteContext/finishWrite/abortWrite: abort without a writer in flight touches neither the state word nor the socket; the last finishing writer clears an armed deadline and the word returns to 0; a failed arming clears the flags; the in-flight count is exact and never underflows; a write starting while an abort is pending does not enter; after all writers returned later writes enter and the last deadline set is 'none'",
 					Bounds: "4 (quick) / 6 (thorough) calls from {start write, finish write, abort}, SetWriteDeadline succeeding or failing", MustReach: []string{"start-while-blocked", "last-writer-after-abort", "abort-noop", "arming-failed", "armed", "done"},
 					Cfg: func(c *HarnessCfg, tier int) { c.GoPolicy = "queue" }},
@@ -289,7 +310,7 @@ func allChecks() []CheckSpec {
 			ID: "C02",
 			Harnesses: []HarnessSpec{
 				{Fn: "verifC02Inbound", Lemma: "one STUN message of any class/method into the real handleInbound from a symbolic pre-state: non-Binding and error responses, requests with a wrong/absent USERNAME or an integrity not under the local password, responses not under the remote password or from an unknown source change nothing observable (datagrams, candidates, pairs, selection, state, role, timestamps, callbacks, transactions); a signed response changes pair state only for an outstanding (<4 s), same-transport, same-address transaction and only on the pair (receiving local, source remote); an indication can only refresh the known remote's last-received",
-					Bounds: "quick: 1 local + 1 remote UDP candidate, thorough: 2+2 and lite agents; pair state/flags symbolic, selection nil or any pair, 0..2 outstanding transactions with symbolic id/age(0..20 s)/destination/transport; message: 4 classes, Binding or any 12-bit method, USERNAME absent/correct/arbitrary 9 bytes/arbitrary 8 bytes, integrity absent/local/remote/other key, USE-CANDIDATE, role attribute, 32-bit priority, arbitrary 96-bit transaction id; source = remote, its IPv4-mapped form, or any IPv4 address:port",
+					Bounds:    "quick: 1 local + 1 remote UDP candidate, thorough: 2+2 and lite agents; pair state/flags symbolic, selection nil or any pair, 0..2 outstanding transactions with symbolic id/age(0..20 s)/destination/transport; message: 4 classes, Binding or any 12-bit method, USERNAME absent/correct/arbitrary 9 bytes/arbitrary 8 bytes, integrity absent/local/remote/other key, USE-CANDIDATE, role attribute, 32-bit priority, arbitrary 96-bit transaction id; source = remote, its IPv4-mapped form, or any IPv4 address:port",
 					MustReach: []string{"not-handled", "request-unauthenticated", "request-authenticated", "response-bad-integrity", "response-unknown-source", "response-authenticated", "response-changed-pair-state", "indication", "indication-unknown-source", "done"}},
 				{Fn: "verifC02AfterRestart", Lemma: "real Restart, then a request signed for the old generation or a response to an old transaction under the old remote password: nothing changes",
 					Bounds: "1 local + 1 remote, both roles, both message kinds", MustReach: []string{"done"}},
